@@ -927,6 +927,16 @@ class SymStr:
         return getattr(self.conc(), name)
 
 
+class SymNumeral(SymStr):
+    """the canonical decimal numeral of the SymInt src (built by str(int)).  int() of it gives
+    src back without re-deriving the value from the digits (CPython: int(str(n)) == n)."""
+    __slots__ = ("src",)
+
+    def __init__(self, els, src):
+        SymStr.__init__(self, els)
+        self.src = src
+
+
 # ------------------------------------------------------------------------------------------
 class SymEnum:
     """one of finitely many concrete strings, selected by a symbolic index."""
